@@ -26,7 +26,7 @@ MANIFEST = dict(
               'analysis of the parse methods and constructors) and the displacement flag tables; the block theorem composes the '
               'string-level theorems with the C01 KeyValues1 tokenizer/parser model; vm_compute correspondence of the '
               'escape/scanner/rounding/output/fixup/number-group-text models; round-trip search on real VMF objects',
-    text='Theorems in Props/C06.v (51): the tokenizer\'s quoted-string scanner inverts escape_text for every string in both modes; '
+    text='Theorems in Props/C06.v (53): the tokenizer\'s quoted-string scanner inverts escape_text for every string in both modes; '
          'every keyvalue line whose interpolations are escaped strings, numbers or plain literals re-reads as its field values (a raw '
          'string field does not); for every generated export program that passes prog_ok, every environment and call depth, the text '
          'written parses -- C01 tokenizer and Keyvalues.parse model -- to exactly the tree of keys, values and child blocks the writer '
@@ -40,7 +40,8 @@ MANIFEST = dict(
          'written line is written by a formatter that keeps the precision the property demands of that field (5e-7 absolutely, six '
          'significant digits for face rotation / output delay / multiblend, exact for integers and flags), and the table is tight; '
          '"x y z" in any bracket pair and "[x y z offset] scale" are taken apart into their number tokens by parse_vec_str / '
-         'UVAxis.parse; reading entity and hidden blocks in file order preserves entity order. 267 instance obligations are regenerated '
+         'UVAxis.parse, the plane triple "(a) (b) (c)" into its three parts; reading entity and hidden blocks in file order preserves entity order. '
+         '188 instance obligations (271 obligations in total with theorems, correspondences, translators, ties) are regenerated '
          'from vmf.py / math.py and kernel-checked on every run. The search builds maps through the public API (all object kinds, options '
          'minimal/disp_multiblend/preserve_ids, every tests/*.vmf) and checks text fixed point and field-by-field equality with the '
          'stated tolerances.',
@@ -1016,7 +1017,7 @@ def run(ck: Ck) -> None:
         ck.explain('tie:')
     if any('multiblend' in k or 'alphablend' in k for k in keys):
         ck.explain('instance:optional_arrays_guard')
-    if any('disp.coll' in k or 'disp.subdiv' in k or 'dispinfo' in k for k in keys):
+    if any('disp.coll' in k or 'disp.subdiv' in k or 'dispinfo' in k or k.startswith(('export-error', 'file:export-error')) for k in keys):
         ck.explain('instance:disp_flags_')
         ck.explain('translate:VmfFlags_gen')
     if any(k.startswith(('field:', 'text:', 'file:', 'parse-error:')) for k in keys):
